@@ -80,35 +80,53 @@ pub mod z {
         }
     }
 
-    /// open + every accessor taking a caller-supplied header, valid and corrupted headers alike
-    #[kani::proof]
-    #[kani::stub(std::alloc::alloc, no_alloc)]
-    #[kani::stub(std::alloc::alloc_zeroed, no_alloc)]
-    #[kani::stub(std::alloc::realloc, no_realloc)]
-    #[kani::unwind(6)]
-    pub fn accessors_no_alloc() {
-        let file: &'static [u8] = &FILE;
-        let f = match ElfBytes::<AnyEndian>::minimal_parse(file) {
-            Ok(f) => f,
-            Err(_) => return,
+    macro_rules! no_alloc_harness {
+        ($name:ident, |$f:ident| $body:block) => {
+            #[kani::proof]
+            #[kani::stub(std::alloc::alloc, no_alloc)]
+            #[kani::stub(std::alloc::alloc_zeroed, no_alloc)]
+            #[kani::stub(std::alloc::realloc, no_realloc)]
+            #[kani::unwind(6)]
+            pub fn $name() {
+                let file: &'static [u8] = &FILE;
+                let $f = match ElfBytes::<AnyEndian>::minimal_parse(file) {
+                    Ok(f) => f,
+                    Err(_) => return,
+                };
+                $body
+            }
         };
+    }
+    // every accessor taking a caller-supplied (fully symbolic, hence also corrupted) header; one harness per accessor family
+    no_alloc_harness!(section_data_no_alloc, |f| {
         let sh = any_shdr();
-        let _ = f.section_data(&sh);
-        let _ = f.section_data_as_strtab(&sh); // get_raw / get on a string table: see views_no_alloc
+        let r = f.section_data(&sh);
+        kani::cover!(r.is_err(), "corrupted header argument reaches the error path");
+        let _ = f.section_data_as_strtab(&sh);
+    });
+    no_alloc_harness!(rel_views_no_alloc, |f| {
+        let sh = any_shdr();
         if let Ok(mut it) = f.section_data_as_rels(&sh) {
             let _ = it.next();
         }
         if let Ok(mut it) = f.section_data_as_relas(&sh) {
             let _ = it.next();
         }
+    });
+    no_alloc_harness!(note_views_no_alloc, |f| {
+        let sh = any_shdr();
         if let Ok(mut it) = f.section_data_as_notes(&sh) {
             let _ = it.next();
         }
+    });
+    no_alloc_harness!(segment_no_alloc, |f| {
         let ph = any_phdr();
         let _ = f.segment_data(&ph);
         if let Ok(mut it) = f.segment_data_as_notes(&ph) {
             let _ = it.next();
         }
+    });
+    no_alloc_harness!(table_accessors_no_alloc, |f| {
         let _ = f.section_headers();
         let _ = f.segments();
         let _ = f.section_headers_with_strtab();
@@ -117,8 +135,7 @@ pub mod z {
         let _ = f.dynamic();
         let _ = f.symbol_version_table();
         let _ = f.find_common_data();
-        kani::cover!(f.section_data(&sh).is_err(), "corrupted header argument reaches the error path");
-    }
+    });
 
     /// opening arbitrary (also invalid) header bytes allocates nothing
     #[kani::proof]
@@ -127,9 +144,9 @@ pub mod z {
     #[kani::stub(std::alloc::realloc, no_realloc)]
     #[kani::unwind(9)]
     pub fn open_no_alloc() {
-        let buf: [u8; 66] = kani::any();
+        let buf: [u8; 64] = kani::any();
         let len: usize = kani::any();
-        kani::assume(len <= 66);
+        kani::assume(len <= 64);
         let r = ElfBytes::<AnyEndian>::minimal_parse(&buf[..len]);
         kani::cover!(r.is_err(), "rejected header");
     }
